@@ -156,8 +156,15 @@ def layout_steps(cpath):
 # --------------------------------------------------------------------------
 
 
+def _lift_limits():
+    import resource
+
+    soft, hard = resource.getrlimit(resource.RLIMIT_AS)
+    resource.setrlimit(resource.RLIMIT_AS, (hard, hard))  # sanitizer runtimes reserve terabytes of address space
+
+
 def run(cmd, **kw):
-    return subprocess.run(cmd, stdout=subprocess.PIPE, stderr=subprocess.STDOUT, text=True, **kw)
+    return subprocess.run(cmd, stdout=subprocess.PIPE, stderr=subprocess.STDOUT, text=True, preexec_fn=_lift_limits, **kw)
 
 
 def syntax_ok(source, lang, defines=(), workdir="."):
